@@ -10,6 +10,9 @@ use std::marker::PhantomData;
 
 verus! {
 
+// paths the extracted bodies name through `crate::` (T8)
+pub mod buffer { pub use crate::real::{Block, Token, Style}; }
+
 pub mod prelude {
     use super::*;
 
@@ -60,6 +63,13 @@ pub mod prelude {
     /// bpaf::Doc (src/buffer.rs): opaque, no unit reads its contents (T8)
     #[verifier::external_body]
     pub struct Doc { _opaque: () }
+
+    impl Clone for Doc {
+        #[verifier::external_body]
+        fn clone(&self) -> (r: Self)
+            ensures r == *self
+        { unimplemented!() }
+    }
 
     /// bpaf::meta_youmean::Suggestion: opaque (T8)
     #[verifier::external_body]
@@ -271,6 +281,65 @@ pub mod spec {
         }
     }
 
+    /// the process environment is an external, fixed input of a run: "one of these variables is set"
+    pub uninterp spec fn env_present(names: Seq<&'static str>) -> bool;
+
+    /// relational denotation assumed for ParseFlag::eval (src/params.rs:534-564, iterator + std::env code):
+    /// on the line -> leftmost matching item consumed, `present`; else variable set -> `present`, nothing consumed;
+    /// else `absent` if there is one, otherwise a catchable Missing/NoEnv error; state untouched in the last three cases
+    pub open spec fn flag_rel<T>(named: NamedArg, present_v: T, absent_v: Option<T>, pre: State, r: Result<T, Error>, post: State) -> bool {
+        if exists|i: int| #[trigger] pre.avail(i) && named.matches_spec(pre.items[i], false) {
+            exists|i: int| #[trigger] pre.first_match(named, false, i)
+                && post.item_state@ == pre.consumed1(i) && post.remaining == pre.remaining - 1
+                && post.items == pre.items && post.scope == pre.scope && post.path == pre.path
+                && r is Ok
+        } else {
+            post.same_but_current(pre) && (
+                if env_present(named.env@) { r is Ok }
+                else { match absent_v { Some(a) => r is Ok, None => r is Err && (r->Err_0.0 is Missing || r->Err_0.0 is NoEnv) } })
+        }
+    }
+
+    pub open spec fn version_requested(info: Info, s: State) -> bool {
+        info.version is Some && (env_present(info.version_arg.env@)
+            || exists|i: int| #[trigger] s.avail(i) && info.version_arg.matches_spec(s.items[i], false))
+    }
+
+    pub open spec fn help_requested(info: Info, s: State) -> bool {
+        exists|i: int| #[trigger] s.avail(i) && info.help_arg.matches_spec(s.items[i], false)
+    }
+
+    /// relational denotation of OptionParser::run_subparser
+    pub open spec fn run_rel<T>(p: OptionParser<T>, pre: State, r: Result<T, ParseFailure>, post: State) -> bool {
+        exists|ri: Result<T, Error>, mid: State| #[trigger] p.inner.rel(pre, ri, mid) && step(pre, mid) && run_case(p, pre, ri, mid, r, post)
+    }
+
+    pub open spec fn inner_final<T>(ri: Result<T, Error>) -> Option<ParseFailure> {
+        match ri {
+            Err(e) => match e.0 { Message::ParseFailure(f) => Some(f), _ => None },
+            Ok(_) => None,
+        }
+    }
+
+    pub open spec fn run_case<T>(p: OptionParser<T>, pre: State, ri: Result<T, Error>, mid: State, r: Result<T, ParseFailure>, post: State) -> bool {
+        let fin = inner_final(ri);
+        let parser_failed = ri is Err && !(fin is Some && fin->Some_0 is Stdout);
+        if parser_failed && p.info.help_if_no_args && pre.remaining == 0 {
+            // fallback_to_usage: no arguments at all and the parser failed -> usage on stdout
+            post == mid && r is Err && r->Err_0 is Stdout
+        } else if fin is Some {
+            // an inner level's final output (help of a subcommand, its error) is passed through untouched
+            post == mid && r == Err::<T, ParseFailure>(fin->Some_0)
+        } else if ri is Ok && (forall|i: int| !#[trigger] mid.avail(i)) {
+            // the only way to a value: the inner parser succeeded and nothing available is left
+            post == mid && r == Ok::<T, ParseFailure>(ri->Ok_0)
+        } else {
+            // inner failure or leftovers: help/version lookup comes first and wins; otherwise stderr
+            exists|ei: Result<ExtraParams, Error>| #[trigger] p.info.rel(mid, ei, post) && (
+                if ei is Ok { r is Err && r->Err_0 is Stdout } else { r is Err && r->Err_0 is Stderr })
+        }
+    }
+
     pub open spec fn res_err<T>(r: Result<T, Error>) -> Option<Error> {
         match r { Ok(_) => None, Err(e) => Some(e) }
     }
@@ -444,7 +513,7 @@ pub mod real {
 //@@ end
 
 //@@ type src/params.rs | struct NamedArg
-//@@ unit params.NamedArg tags=
+//@@ unit params.NamedArg tags= derive_clone
 //@@ end
 
 //@@ type src/error.rs | struct MissingItem
@@ -1283,6 +1352,129 @@ proof { lemma_conflicts_saved(*old(args), *old(args_b), *old(args_a), win, *args
             }
     }
 //@@ also fn meta external_body
+//@@ end
+
+
+//@@ type src/info.rs | struct OptionParser
+//@@ unit info.OptionParser tags=
+//@@ attr
+#[verifier::reject_recursive_types(T)]
+//@@ end
+
+//@@ type src/info.rs | enum ExtraParams
+//@@ unit info.ExtraParams tags=
+//@@ end
+
+//@@ type src/params.rs | struct ParseFlag
+//@@ unit params.ParseFlag tags=
+//@@ end
+
+// ---- assumed contracts: rendering (string/format! code outside both tools' reach) – results are uninterpreted
+#[verifier::external_body]
+pub fn render_help(path: &[String], info: &Info, parser_meta: &Meta, help_meta: &Meta, include_env: bool) -> Doc
+{ unimplemented!() }
+
+impl Message {
+    #[verifier::external_body]
+    pub fn render(self, args: &State, meta: &Meta) -> (r: ParseFailure)
+        ensures r is Stderr, // assumed: an error message is rendered for stderr (src/error.rs:281-617, not extracted)
+    { unimplemented!() }
+}
+
+impl Doc {
+    #[verifier::external_body]
+    pub fn default() -> Doc { unimplemented!() }
+    #[verifier::external_body]
+    pub fn token(&mut self, token: Token) { unimplemented!() }
+    #[verifier::external_body]
+    pub fn text(&mut self, text: &str) { unimplemented!() }
+    #[verifier::external_body]
+    pub fn doc(&mut self, buf: &Doc) { unimplemented!() }
+}
+
+//@@ type src/buffer.rs | enum Token
+//@@ unit buffer.Token tags=
+//@@ end
+
+//@@ type src/buffer.rs | enum Block
+//@@ unit buffer.Block tags=
+//@@ end
+
+//@@ type src/buffer.rs | enum Style
+//@@ unit buffer.Style tags=
+//@@ end
+
+
+//@@ fn src/params.rs | impl Parser for ParseFlag | fn eval
+//@@ unit params.ParseFlag.eval tags=C18,C10 external_body
+//@@ members
+    open spec fn pwf(&self) -> bool { true }
+    open spec fn rel(&self, pre: State, r: Result<T, Error>, post: State) -> bool {
+        flag_rel(self.named, self.present, self.absent, pre, r, post)
+    }
+//@@ also fn meta external_body
+//@@ end
+
+//@@ fn src/params.rs | fn build_flag_parser
+//@@ unit params.build_flag_parser tags=C10
+//@@ ret r
+//@@ spec
+        ensures r.present == present, r.absent == absent, r.named == named,
+//@@ end
+
+//@@ fn src/params.rs | impl NamedArg | fn req_flag
+//@@ unit params.NamedArg.req_flag tags=C10 external_body keep_body
+//@@ ret r
+//@@ spec
+        ensures
+            r.pwf(),
+            forall|pre: State, res: Result<T, Error>, post: State| #[trigger] r.rel(pre, res, post) == flag_rel(self, present, None::<T>, pre, res, post),
+//@@ end
+
+
+//@@ fn src/info.rs | impl Info | fn mk_help_parser
+//@@ unit info.Info.mk_help_parser tags=C10
+//@@ ret r
+//@@ spec
+        ensures
+            r.pwf(),
+            forall|pre: State, res: Result<(), Error>, post: State| #[trigger] r.rel(pre, res, post) == flag_rel(self.help_arg, (), None::<()>, pre, res, post),
+//@@ end
+
+//@@ fn src/info.rs | impl Info | fn mk_version_parser
+//@@ unit info.Info.mk_version_parser tags=C10
+//@@ ret r
+//@@ spec
+        ensures
+            r.pwf(),
+            forall|pre: State, res: Result<(), Error>, post: State| #[trigger] r.rel(pre, res, post) == flag_rel(self.version_arg, (), None::<()>, pre, res, post),
+//@@ end
+
+//@@ fn src/info.rs | impl Parser for Info | fn eval
+//@@ unit info.Info.eval tags=C10
+//@@ members
+    open spec fn pwf(&self) -> bool { true }
+    /// help flag available anywhere in scope (or its variable set) => Help; otherwise version only if configured and requested
+    open spec fn rel(&self, pre: State, r: Result<ExtraParams, Error>, post: State) -> bool {
+        let h = help_requested(*self, pre) || env_present(self.help_arg.env@);
+        &&& h ==> r is Ok && r->Ok_0 is Help // #help_flag_anywhere_in_scope_means_help
+        &&& !h && version_requested(*self, pre) ==> r is Ok && r->Ok_0 is Version && Some(r->Ok_0->Version_0) == self.version // #version_only_if_configured
+        &&& !h && !version_requested(*self, pre) ==> r is Err && !(r->Err_0.0 is ParseFailure) // #otherwise_not_help
+    }
+//@@ also fn meta external_body
+//@@ end
+
+
+//@@ fn src/info.rs | impl OptionParser | fn run_subparser
+//@@ unit info.OptionParser.run_subparser tags=C01,C05,C08,C10,C11,C14
+//@@ ret r
+//@@ spec
+        requires
+            self.inner.pwf(),
+            old(args).wf(),
+        ensures
+            run_rel(*self, *old(args), r, *final(args)), // #refines_run_rel
+            step(*old(args), *final(args)), // #step
 //@@ end
 
 }
